@@ -1704,7 +1704,19 @@ def rule_guarded(ctx):
     names = _target_names(lp.target) if lp is not None else []
     pvar = names[0] if names else "part"
     cg = _canon_part(prog, g, pvar)
-    bare = [n for n in ast.walk(g.node) if isinstance(n, ast.Dict) and any(isinstance(k, ast.Constant) and k.value == "type" for k in n.keys)]
+    bare = [n for n in ast.walk(g.node) if isinstance(n, ast.Dict) and len(n.keys) == 1 and isinstance(n.keys[0], ast.Constant) and n.keys[0].value == "type"]
+    # explicit specs ({"type": .., "key.equal_to": v}) may only carry a value that simplify() produced
+    for n in ast.walk(g.node):
+        if isinstance(n, ast.Dict) and len(n.keys) > 1 and any(isinstance(k, ast.Constant) and k.value == "type" for k in n.keys):
+            vals = [norm(v) for k, v in zip(n.keys, n.values) if isinstance(k, ast.Constant) and k.value != "type"]
+            inst = {"explicit spec": norm(n)[:100], "values": vals}
+            r.instances.append(inst)
+            if all(isinstance(v, (ast.Name, ast.Subscript)) and not any(isinstance(x, ast.Attribute) and x.attr in ("kwargs", "args", "callable") for x in ast.walk(v))
+                   for k, v in zip(n.keys, n.values) if isinstance(k, ast.Constant) and k.value != "type"):
+                r.ok()
+            else:
+                r.fail(Finding("R-GUARDED", "R-GUARDED|datapath.DataPath.to_part_specs|explicit", f"{g.file}:{n.lineno}",
+                               f"the explicit spec `{norm(n)[:90]}` reads a condition's arguments directly instead of the value simplify() vouches for", []))
     for b in bare:
         facts = facts_at(prog, g, b, cg)
         inst = {"bare spec": norm(b), "under": sorted(facts)}
@@ -2128,6 +2140,10 @@ def rule_swallow(ctx):
                 ent = prog.resolve_expr(cp.module, t)
                 if isinstance(ent, ClassInfo):
                     swallowed.setdefault(ent.qualname, []).append(h)
+                elif norm(t) in ("Exception", "BaseException"):
+                    swallowed.setdefault("builtins.Exception", []).append(h)
+            if h.type is None:
+                swallowed.setdefault("builtins.Exception", []).append(h)
     inst = {"probe handlers in the condition parser swallow": sorted(swallowed)}
     r.instances.append(inst)
     if not swallowed:
@@ -2138,7 +2154,9 @@ def rule_swallow(ctx):
         e = exc_expr.func if isinstance(exc_expr, ast.Call) else exc_expr
         ent = prog.resolve_expr(mod, e) if e is not None else None
         if isinstance(ent, ClassInfo):
-            return next((q for q in swallowed if prog.classes[q] in ent.mro), None), ent.qualname
+            if "builtins.Exception" in swallowed:
+                return "builtins.Exception", ent.qualname
+            return next((q for q in swallowed if q in prog.classes and prog.classes[q] in ent.mro), None), ent.qualname
         return None, None
     # (1) raises of the path parser after part building started
     clsname = pp.params[0].name if pp.params else "cls"
@@ -2188,4 +2206,233 @@ def rule_swallow(ctx):
     r.instances.append({"part parser raises examined": n_part})
     if n_part:
         r.ok()
+    return r
+
+
+def rule_popuse(ctx):
+    """Every argument the part parser takes out of the spec (`spec.pop("name", ..)`) without first
+    looking at the part type must reach the part it builds on every path; an argument that is
+    popped for all part types but handed only to one of them is silently dropped for the others
+    (instead of being rejected as an unknown argument of that part type)."""
+    from ..anchors import part_parser
+    prog = ctx.prog
+    r = RuleResult("R-POPUSE", floor=3)
+    f = part_parser(prog)
+    pops = []
+    for st in f.node.body:
+        if isinstance(st, ast.Assign) and len(st.targets) == 1 and isinstance(st.targets[0], ast.Name) and isinstance(st.value, ast.Call) \
+                and isinstance(st.value.func, ast.Attribute) and st.value.func.attr == "pop" and st.value.args and isinstance(st.value.args[0], ast.Constant):
+            pops.append((st.targets[0].id, st.value.args[0].value, st))
+    rets = [n for n in ast.walk(f.node) if isinstance(n, ast.Return) and n.value is not None]
+    assigns = [n for n in ast.walk(f.node) if isinstance(n, (ast.Assign, ast.AugAssign))]
+
+    def derived(v):
+        names = {v}
+        changed = True
+        while changed:
+            changed = False
+            for a in assigns:
+                val = a.value
+                if any(isinstance(x, ast.Name) and x.id in names for x in ast.walk(val)):
+                    for t in (a.targets if isinstance(a, ast.Assign) else [a.target]):
+                        for x in ast.walk(t):
+                            if isinstance(x, ast.Name) and x.id not in names:
+                                names.add(x.id)
+                                changed = True
+        return names
+    for var, key, st in pops:
+        if key in ("type",):
+            continue
+        d = derived(var)
+        used_in = [any(isinstance(x, ast.Name) and x.id in d for x in ast.walk(rt.value)) for rt in rets]
+        tested = any(isinstance(n, (ast.If, ast.While)) and any(isinstance(x, ast.Name) and x.id in d for x in ast.walk(n.test)) and any(isinstance(y, ast.Raise) for y in ast.walk(n)) for n in ast.walk(f.node))
+        inst = {"argument": key, "bound to": var, "reaches": f"{sum(used_in)} of {len(rets)} returns"}
+        r.instances.append(inst)
+        if rets and all(used_in):
+            r.ok()
+        elif rets and any(used_in):
+            bad = next(rt for rt, u in zip(rets, used_in) if not u)
+            r.fail(Finding("R-POPUSE", f"R-POPUSE|{f.qualname}|{key}", f"{f.file}:{st.lineno}",
+                           f"the part argument `{key}` is taken out of the spec for every part type (`{norm(st)[:70]}`) but `{norm(bad)[:60]}` builds a part without it: "
+                           f"for that part type the argument is silently dropped instead of being rejected as unknown", []))
+        else:
+            r.undecided.append(inst)
+    if len(pops) < 3:
+        raise AnalysisError("part parser: fewer than 3 unconditional `spec.pop(<name>)` arguments found")
+    return r
+
+
+def rule_precoerce(ctx):
+    """An argument value may be a data-path spec (a mapping) or absent (None).  Whatever the condition
+    parser does to argument values *before* it probes them for path specs must let mappings (and None)
+    through: a table lookup keyed by the raw argument (type-name conversion) raises TypeError
+    (unhashable) for a mapping, so a path-valued argument never reaches the coercion - the spec form of
+    e.g. `Value.dtype.equal_to(DataPath("b").dtype())` cannot be parsed."""
+    from ..anchors import condition_parser, path_parser
+    prog = ctx.prog
+    r = RuleResult("R-PRECOERCE", floor=1)
+    f = condition_parser(prog)
+    pp = path_parser(prog)
+    probes = [n for n in ast.walk(f.node) if isinstance(n, ast.Call) and isinstance(n.func, ast.Attribute) and n.func.attr == pp.name and "DataPath" in norm(n.func.value)]
+    helper_probe = None
+    if not probes:
+        for g in helper_closure(prog, prog.functions.get(f.qualname, f))[1:]:
+            if any(isinstance(n, ast.Call) and isinstance(n.func, ast.Attribute) and n.func.attr == pp.name for n in ast.walk(g.node)):
+                helper_probe = next((n for n in ast.walk(f.node) if isinstance(n, ast.Call) and norm(n.func).split(".")[-1] == g.name), None)
+    first_probe_line = min([p_.lineno for p_ in probes] + ([helper_probe.lineno] if helper_probe is not None else []) or [10 ** 9])
+    # the argument variable: the value of the single-item spec mapping
+    argvar = None
+    for n in ast.walk(f.node):
+        if isinstance(n, ast.Assign) and isinstance(n.targets[0], ast.Tuple) and len(n.targets[0].elts) == 2 and "items()" in norm(n.value):
+            argvar = norm(n.targets[0].elts[1])
+    inst = {"argument variable": argvar, "first path probe at line": first_probe_line if first_probe_line < 10 ** 9 else None}
+    r.instances.append(inst)
+    if argvar is None or first_probe_line == 10 ** 9:
+        r.undecided.append(inst)
+        return r
+    unparse = lambda e: " ".join(ast.unparse(e).split())
+
+    def check_in(fn, argname, before_line, table_pred):
+        for n in ast.walk(fn.node):
+            if not (isinstance(n, ast.Subscript) and isinstance(n.ctx, ast.Load) and isinstance(n.value, ast.Name) and table_pred(n.value.id) and n.lineno < before_line):
+                continue
+            # the key is the argument, or an element of it bound by an enclosing comprehension / loop over it
+            key_names = {x.id for x in ast.walk(n.slice) if isinstance(x, ast.Name)}
+            elem_of_arg = set()
+            for p_ in _parents(n):
+                if isinstance(p_, (ast.ListComp, ast.GeneratorExp, ast.SetComp)):
+                    for g in p_.generators:
+                        if norm(g.iter) == argname:
+                            elem_of_arg |= {x.id for x in ast.walk(g.target) if isinstance(x, ast.Name)}
+                if isinstance(p_, ast.For) and norm(p_.iter) in (argname, f"enumerate({argname})"):
+                    elem_of_arg |= {x.id for x in ast.walk(p_.target) if isinstance(x, ast.Name)}
+            subjects = (key_names & {argname}) | (key_names & elem_of_arg)
+            if not subjects:
+                continue
+            facts = facts_at(prog, fn, n, unparse)
+            inst = {"lookup": f"{fn.qualname}: {norm(n)[:80]}", "keyed by": sorted(subjects), "under": sorted(facts)[:6]}
+            r.instances.append(inst)
+            ok = True
+            for v in subjects:
+                excl = any(ft.startswith("not ") and (f"isinstance({v}, dict)" in ft or f"isinstance({v}, (dict" in ft) for ft in facts)
+                pos = any(not ft.startswith("not ") and ft.startswith(f"isinstance({v}, ") and "dict" not in ft for ft in facts)
+                if not (excl or pos):
+                    ok = False
+            if ok:
+                r.ok()
+            else:
+                r.fail(Finding("R-PRECOERCE", f"R-PRECOERCE|{fn.qualname}|{norm(n)[:50]}", f"{fn.file}:{n.lineno}",
+                               f"`{norm(n)[:80]}` looks the raw argument ({sorted(subjects)}) up in a table before the data-path coercion, with no guard letting a mapping through: "
+                               f"a path-spec argument ({{'path...': [..]}}) raises TypeError (unhashable) here, so e.g. `value.dtype.equal_to: {{path.dtype: [b]}}` cannot be written as a spec", []))
+    check_in(f, argvar, first_probe_line, lambda nm: nm.isupper())
+    # helpers that receive the argument before the probe (not inlinable ones stay calls)
+    for c in ast.walk(f.node):
+        if isinstance(c, ast.Call) and c.lineno < first_probe_line and isinstance(c.func, ast.Name) and c.func.id in f.module.functions and c.func.id.startswith("_"):
+            h = f.module.functions[c.func.id]
+            for pos, a in enumerate(c.args):
+                if norm(a) == argvar and pos < len(h.params):
+                    tables = {h.params[k].name for k, b in enumerate(c.args) if isinstance(b, ast.Name) and b.id.isupper() and k < len(h.params)}
+                    check_in(h, h.params[pos].name, 10 ** 9, lambda nm, tables=tables: nm.isupper() or nm in tables)
+    return r
+
+
+def rule_eqwrite(ctx):
+    """What path equality compares, the part-spec writer must look at - to write it or to refuse:
+    a field that `DataPath.__eq__` reads and `to_part_specs` never consults is lost silently, and the
+    rebuilt path differs from the original (e.g. a path built from a mapping spec is not concrete, its
+    all-primitive serialisation rebuilds a concrete one; a `.length()` modifier disappears)."""
+    from .eq import compared_fields
+    prog = ctx.prog
+    r = RuleResult("R-EQWRITE", floor=3)
+    dp = prog.cls("datapath.DataPath")
+    eq = dp.lookup_method("__eq__")
+    w = dp.lookup_method("to_part_specs")
+    if eq is None or w is None:
+        raise AnalysisError("DataPath.__eq__ / to_part_specs not found")
+    comp = sorted({x.lstrip("_") for x in compared_fields(prog, dp, eq)})
+    reads = set()
+    for g in helper_closure(prog, w):
+        for n in ast.walk(g.node):
+            if isinstance(n, ast.Attribute) and isinstance(n.value, ast.Name) and n.value.id == "self":
+                reads.add(n.attr.lstrip("_"))
+    # simplify() is part of the writer (public, so not in the private-helper closure)
+    for n in ast.walk(w.node):
+        if isinstance(n, ast.Call) and isinstance(n.func, ast.Attribute) and isinstance(n.func.value, ast.Name) and n.func.value.id == "self":
+            m = dp.lookup_method(n.func.attr)
+            if m is not None:
+                for x in ast.walk(m.node):
+                    if isinstance(x, ast.Attribute) and isinstance(x.value, ast.Name) and x.value.id == "self":
+                        reads.add(x.attr.lstrip("_"))
+    for fld in comp:
+        inst = {"compared by DataPath.__eq__": fld, "consulted by to_part_specs": fld.lstrip("_") in reads}
+        r.instances.append(inst)
+        if fld.lstrip("_") in reads:
+            r.ok()
+        else:
+            r.fail(Finding("R-EQWRITE", f"R-EQWRITE|datapath.DataPath.to_part_specs|{fld}", f"{w.file}:{w.node.lineno}",
+                           f"`DataPath.__eq__` compares `{fld}` but `to_part_specs` never looks at it: a path that differs from another only there is serialised to the same specs, "
+                           f"so the rebuilt path is not equal to the original / selects or reads differently (neither written nor refused)", []))
+    return r
+
+
+def rule_reroot(ctx):
+    """Re-rooting a rule under a root path must re-root everything in it that addresses the document:
+    its path *and* the data-path arguments of its condition, which RuleTest resolves against the whole
+    validated document (`source_data=self.data`)."""
+    prog = ctx.prog
+    r = RuleResult("R-REROOT", floor=1)
+    f = prog.flat("schema.Schema.add_schema")
+    loop = next((n for n in ast.walk(f.node) if isinstance(n, ast.For)), None)
+    if loop is None:
+        r.undecided.append({"what": "loop over the added rules not found"})
+        r.instances.append({"add_schema": "no loop"})
+        return r
+    var = _target_names(loop.target)[-1]
+    ctor = [n for n in ast.walk(loop) if isinstance(n, ast.Call) and norm(n.func) == "Rule"]
+    whole_doc = any(isinstance(n, ast.keyword) and n.arg == "source_data" and norm(expand_aliases(g, n.value)) == "self.data"
+                    for g in [prog.flat("rules.RuleTest.__init__")] + [prog.flat(m.qualname) for m in prog.cls("rules.RuleTest").methods.values()] for n in ast.walk(g.node))
+    for c in ctor:
+        kws = {k.arg: k.value for k in c.keywords if k.arg}
+        cond = kws.get("condition")
+        inst = {"re-rooted rule": norm(c)[:140], "condition": norm(cond) if cond is not None else None, "path arguments resolved against the whole document": whole_doc}
+        r.instances.append(inst)
+        if cond is None:
+            r.undecided.append(inst)
+        elif norm(cond) == f"{var}.condition" and whole_doc:
+            r.fail(Finding("R-REROOT", "R-REROOT|schema.Schema.add_schema|condition passed unchanged", f"{f.file}:{c.lineno}",
+                           f"`{norm(c)[:100]}`: the added rule's condition is handed on unchanged while its path is re-rooted; a data-path argument in it (`value.equal_to: {{path: [b]}}`) "
+                           f"is still resolved from the top of the validated document instead of from the root path", []))
+        else:
+            r.ok()
+    if not ctor:
+        r.instances.append({"add_schema": "no Rule(...) construction in the loop"})
+        r.undecided.append({"what": "re-rooted rule construction not recognised"})
+    return r
+
+
+def rule_arity(ctx):
+    """A callable that takes no argument must not be handed one silently: the parser either builds the
+    condition (no argument given) or rejects the spec."""
+    from ..anchors import condition_parser
+    from .sig import SigPath
+    prog = ctx.prog
+    r = RuleResult("R-ARITY", floor=1)
+    f = condition_parser(prog)
+    p = SigPath(prog, f, {"POSITIONAL_OR_KEYWORD": [], "VAR_POSITIONAL": [], "VAR_KEYWORD": []})
+    if not p.bound:
+        raise AnalysisError("condition parser: dispatch on get_func_args_by_kind(..) not found")
+    stmts = p.after_binding()
+    warns = [n for st in stmts for n in ast.walk(st) if isinstance(n, ast.Call) and norm(n.func) in ("warnings.warn", "warn")]
+    calls = [n for st in stmts for n in ast.walk(st) if isinstance(n, ast.Call) and p.subject is not None and norm(n.func) == norm(p.subject)]
+    inst = {"no-argument signature: constructor calls": [norm(c) for c in calls], "warnings": [norm(w)[:80] for w in warns], "rejects": p.raised is not None}
+    r.instances.append(inst)
+    if warns and calls and p.raised is None:
+        w = warns[0]
+        r.fail(Finding("R-ARITY", "R-ARITY|conditions.ConditionLike.from_spec|argument of a no-argument callable ignored", f"{f.file}:{w.lineno}",
+                       f"for a callable without parameters an argument in the spec is only warned about (`{norm(w)[:70]}`) and then ignored: "
+                       f"`{{'value.truthy': 5}}` is accepted as `Value.truthy()` instead of being rejected as wrong arity", []))
+    elif calls:
+        r.ok()
+    else:
+        r.undecided.append(inst)
     return r
